@@ -127,6 +127,7 @@ type World struct {
 	lockInvs      []*lockInv
 	chanElems     []types.Type
 	guardedMaps   []*types.Map
+	lockMemo  map[*ssa.Function]int
 	blockMemo     map[*ssa.Function]int
 }
 
@@ -307,7 +308,58 @@ func (w *World) externFor(fn *ssa.Function, full string) externHandler {
 	if !strings.HasPrefix(p, modulePath) && fn.Signature.Recv() != nil && (fn.Name() == "String" || fn.Name() == "Error") {
 		return externPure
 	}
+	// Side-effect-free standard library functions without a specific model: the result is an unconstrained value of
+	// the result type (sound over-approximation; anything a contract needs to know about the result is then
+	// unprovable and fails as a named obligation, instead of the whole function leaving the verified subset).
+	if pureStdlib(fn) {
+		return externPure
+	}
 	return nil
+}
+
+var purePkgs = map[string]bool{"strings": true, "strconv": true, "unicode": true, "unicode/utf8": true, "path": true,
+	"path/filepath": true, "math": true, "math/bits": true, "html": true, "net/url": true, "slices": true, "maps": true, "cmp": true}
+
+// pureStdlib: package-level functions of packages that neither touch shared state nor do I/O, and value-receiver
+// methods of plain value types (time.Time, time.Duration, net.IP, netip.Addr).
+func pureStdlib(fn *ssa.Function) bool {
+	p := fnPkgPath(fn)
+	recv := fn.Signature.Recv()
+	if recv == nil {
+		if purePkgs[p] {
+			// functions taking or returning functions/pointers to mutable state are not covered
+			for i := 0; i < fn.Signature.Params().Len(); i++ {
+				switch fn.Signature.Params().At(i).Type().Underlying().(type) {
+				case *types.Signature, *types.Pointer, *types.Map, *types.Chan, *types.Interface:
+					return false
+				}
+			}
+			for i := 0; i < fn.Signature.Results().Len(); i++ {
+				switch fn.Signature.Results().At(i).Type().Underlying().(type) {
+				case *types.Pointer, *types.Map, *types.Chan, *types.Signature:
+					return false
+				}
+			}
+			return true
+		}
+		switch fn.String() {
+		case "net.ParseIP", "net.JoinHostPort", "net/netip.ParseAddr", "fmt.Sprint", "fmt.Sprintln", "time.Since", "time.Until", "time.Unix", "time.UnixMilli", "time.Duration.String":
+			return true
+		}
+		return false
+	}
+	if _, isPtr := recv.Type().(*types.Pointer); isPtr {
+		return false
+	}
+	n, ok := types.Unalias(recv.Type()).(*types.Named)
+	if !ok || n.Obj().Pkg() == nil {
+		return false
+	}
+	switch n.Obj().Pkg().Path() + "." + n.Obj().Name() {
+	case "time.Time", "time.Duration", "time.Month", "time.Weekday", "net.IP", "net.IPMask", "net/netip.Addr", "net/netip.AddrPort":
+		return true
+	}
+	return false
 }
 
 // uniqueImpl finds the single non-test implementation of an interface method in the module.
@@ -909,6 +961,61 @@ func (w *World) mayBlock(fn *ssa.Function) bool {
 		w.blockMemo[fn] = 2
 	} else {
 		w.blockMemo[fn] = 1
+	}
+	return res
+}
+
+// mayLock: fn (transitively, through static calls into functions with bodies) acquires a sync mutex.
+func (w *World) mayLock(fn *ssa.Function) bool {
+	if w.lockMemo == nil {
+		w.lockMemo = map[*ssa.Function]int{}
+	}
+	switch w.lockMemo[fn] {
+	case 1:
+		return false
+	case 2:
+		return true
+	case 3:
+		return false
+	}
+	w.lockMemo[fn] = 3
+	res := false
+	for _, b := range fn.Blocks {
+		for _, in := range b.Instrs {
+			var cc *ssa.CallCommon
+			switch x := in.(type) {
+			case *ssa.Call:
+				cc = x.Common()
+			case *ssa.Defer:
+				cc = x.Common()
+			case *ssa.Go:
+				cc = x.Common()
+			case *ssa.MakeClosure:
+				if cf, ok := x.Fn.(*ssa.Function); ok && w.mayLock(cf) {
+					res = true
+				}
+			}
+			if cc == nil {
+				continue
+			}
+			sc := cc.StaticCallee()
+			if sc == nil {
+				continue
+			}
+			switch sc.String() {
+			case "(*sync.Mutex).Lock", "(*sync.Mutex).TryLock", "(*sync.RWMutex).Lock", "(*sync.RWMutex).RLock", "(*sync.RWMutex).TryLock":
+				res = true
+			default:
+				if sc.Blocks != nil && strings.HasPrefix(fnPkgPath(sc), modulePath) && w.mayLock(sc) {
+					res = true
+				}
+			}
+		}
+	}
+	if res {
+		w.lockMemo[fn] = 2
+	} else {
+		w.lockMemo[fn] = 1
 	}
 	return res
 }
